@@ -706,6 +706,29 @@ func init() {
 		call(fr.i, fr, 0, a[1], nil)
 		return nil
 	})
+	// TryRunAs: like RunAs, but if the call has to wait for a lock held by another model thread before it has done
+	// anything, it is abandoned and false is returned (in a real run it would simply wait at that point).
+	reg(vrtPkg+"TryRunAs", func(fr *frame, a []value) (res value) {
+		px := fr.i.px
+		prevThread, prevEffects, prevSched, prevBlock := px.curThread, px.tryEffects, px.inSched, px.inBlock
+		px.curThread = int(asInt64(a[0]))
+		px.tryDepth++
+		px.tryEffects = 0
+		defer func() {
+			px.curThread = prevThread
+			px.tryDepth--
+			px.tryEffects = prevEffects
+			if r := recover(); r != nil {
+				if _, ok := r.(tryAbort); !ok {
+					panic(r)
+				}
+				px.inSched, px.inBlock = prevSched, prevBlock
+				res = false
+			}
+		}()
+		call(fr.i, fr, 0, a[1], nil)
+		return true
+	})
 	reg(vrtPkg+"Watch", func(fr *frame, a []value) value {
 		px := fr.i.px
 		if px.watch == nil {
